@@ -699,6 +699,7 @@ impl<'i> ValidatorErrorBuilder<'i> {
 
     /// Check that all variables were defined.
     fn check_undefined_variables(mut self) -> Self {
+        let first_error = self.errors.len();
         for (name, span) in self.validator.unresolved_variables.iter() {
             if !self.validator.contains_variable(name, *span) {
                 let error = ParserError::undefined_variable(*span, *name);
@@ -706,11 +707,13 @@ impl<'i> ValidatorErrorBuilder<'i> {
             }
         }
 
+        sort_errors_by_position(&mut self.errors, first_error);
         self
     }
 
     /// Check that all iterables in fold blocks were defined.
     fn check_undefined_iterables(mut self) -> Self {
+        let first_error = self.errors.len();
         for (name, span) in self.validator.unresolved_iterables.iter() {
             if self.find_closest_fold_span(name, *span).is_none() {
                 let error = ParserError::undefined_iterable(*span, *name);
@@ -718,11 +721,13 @@ impl<'i> ValidatorErrorBuilder<'i> {
             }
         }
 
+        sort_errors_by_position(&mut self.errors, first_error);
         self
     }
 
     /// Check that a fold block contains not more than one next with a corresponding iterator.
     fn check_multiple_next_in_fold(mut self) -> Self {
+        let first_error = self.errors.len();
         // Approach used here is based on an assumption that each one iterator belongs only to one
         // fold block at any depth. This is checked by check_iterator_for_multiple_definitions and
         // allows to consider only one fold block where this variable was defined. Then a error
@@ -745,11 +750,13 @@ impl<'i> ValidatorErrorBuilder<'i> {
             }
         }
 
+        sort_errors_by_position(&mut self.errors, first_error);
         self
     }
 
     /// Check that a new operator wasn't applied to iterators.
     fn check_new_on_iterators(mut self) -> Self {
+        let first_error = self.errors.len();
         for (name, span) in self.validator.not_iterators_candidates.iter() {
             if self.find_closest_fold_span(name, *span).is_some() {
                 let error = ParserError::invalid_iterator_restriction(*span, *name);
@@ -757,6 +764,7 @@ impl<'i> ValidatorErrorBuilder<'i> {
             }
         }
 
+        sort_errors_by_position(&mut self.errors, first_error);
         self
     }
 
@@ -769,6 +777,7 @@ impl<'i> ValidatorErrorBuilder<'i> {
     ///     )
     /// )
     fn check_iterator_for_multiple_definitions(mut self) -> Self {
+        let first_error = self.errors.len();
         for (name, spans) in self.validator.met_iterator_definitions.iter_all_mut() {
             spans.sort();
             let mut prev_span: Option<Span> = None;
@@ -783,6 +792,7 @@ impl<'i> ValidatorErrorBuilder<'i> {
             }
         }
 
+        sort_errors_by_position(&mut self.errors, first_error);
         self
     }
 
@@ -834,6 +844,15 @@ impl<'i> ValidatorErrorBuilder<'i> {
             .last()
             .cloned()
     }
+}
+
+/// The candidates of a check are kept in hash maps, so the errors of one check come out in hash order.
+/// This puts the errors appended since `from` into the order of their positions in the script.
+fn sort_errors_by_position<'i>(errors: &mut [ErrorRecovery<AirPos, Token<'i>, ParserError>], from: usize) {
+    errors[from..].sort_by_cached_key(|error| {
+        let position = error.dropped_tokens.first().map(|(left, _, right)| (*left, *right));
+        (position, format!("{:?}", error.error))
+    });
 }
 
 fn add_to_errors<'i>(
